@@ -21,6 +21,9 @@ player_<var> events, game-flow events):
   var_event      every write to a player variable (tapped at Player.__setattr__) vs. the player_<var> events posted.
   mode_binding   a game mode alive during a ball was started for that ball (else its devices hold another player's
                  objects).
+  read_only      reading a (possibly non-existent) variable of any player through player[name] / getattr /
+                 is_player_var / a conditional event_player entry mentioning players[k].<var> leaves every player's
+                 variable set unchanged (the monitors themselves only read names that exist).
 
 Held mode stops: in a share of cases a queue_relay_player + delayed event_player entry holds mode_m2_stopping and/or
 mode_base_stopping for 0.5-5 virtual seconds ("outro"); generated op patterns request the stop, drain the ball within
@@ -78,10 +81,11 @@ TIERS = {
     "thorough": {"cases": 60000, "batch": 250, "case_timeout": 180},
 }
 MIN_EVALS = {"quick": {"isolation": 60000, "restore": 2000, "initial": 20000, "device_view": 250000, "pv_model": 500000,
-                       "var_event": 80000, "nonpersist": 8000, "mode_restart": 4000, "mode_binding": 40000},
+                       "var_event": 80000, "nonpersist": 8000, "mode_restart": 4000, "mode_binding": 40000,
+                       "read_only": 1500},
              "thorough": {"isolation": 2400000, "restore": 80000, "initial": 750000, "device_view": 9000000,
                           "pv_model": 18000000, "var_event": 3000000, "nonpersist": 300000, "mode_restart": 160000,
-                          "mode_binding": 1500000}}
+                          "mode_binding": 1500000, "read_only": 50000}}
 SHRINK_KEYS = ["ops"]
 
 ABSENT = "<absent>"
@@ -244,10 +248,10 @@ def _run(case, tap, G, VMachine, MpfCrash):
     m2_restart = bool(cfg["m2"]["mode"].get("restart_on_next_ball"))
 
     clauses = {"isolation": 0, "restore": 0, "initial": 0, "device_view": 0, "pv_model": 0, "var_event": 0,
-               "nonpersist": 0, "mode_restart": 0, "mode_binding": 0, "no_crash": 0}
+               "nonpersist": 0, "mode_restart": 0, "mode_binding": 0, "read_only": 0, "no_crash": 0}
     obs = {"ops_applied": 0, "ops_skipped": 0, "turns": 0, "balls": 0, "extra_balls": 0, "games": 0, "players_added": 0,
            "writes_seen": 0, "var_events_seen": 0, "targeted_writes": 0, "hook_posts": 0, "m2_activations": 0,
-           "diverged_isolation_evals": 0, "max_players": 0, "restores_with_divergence": 0}
+           "diverged_isolation_evals": 0, "max_players": 0, "restores_with_divergence": 0, "reads": 0}
     viol = []
     sigs_seen = set()
     harness = []
@@ -732,6 +736,44 @@ def _run(case, tap, G, VMachine, MpfCrash):
                 m.playfield.available_balls = 0
                 vm.advance(HORIZONS["settle_after_op_s"])
                 return True
+            if k in ("read", "probe"):
+                pl = players()
+                if m.game is None or m.game.player is None or not pl or S["phase"] not in ("turn",):
+                    return False
+                before = snapshot()
+                if k == "read":
+                    who, name, how = op[1], op[2], op[3]
+                    if who == "cur":
+                        target = m.game.player
+                    elif who < len(pl):
+                        target = pl[who]
+                    else:
+                        return False
+                    if how == "item":
+                        target[name]
+                    elif how == "attr":
+                        getattr(target, name)
+                    else:
+                        target.is_player_var(name)
+                else:
+                    probes = cfg.get("probes", [])
+                    if op[1] >= len(probes):
+                        return False
+                    ev, expr = probes[op[1]]
+                    if expr.startswith("players[") and int(expr[8]) >= len(pl):
+                        return False        # "Player not in game" is a placeholder error, not a read
+                    m.events.post(ev)
+                    for _ in range(3):
+                        vm.advance(0)
+                obs["reads"] += 1
+                after = snapshot()
+                clauses["read_only"] += 1
+                if before != after:
+                    ch = {n: _diff(before.get(n, {}), after.get(n, {})) for n in after if before.get(n) != after.get(n)}
+                    V("read_only", "C11:reading_a_player_variable_changed_player_state", op_detail=op, changed=ch, **where())
+                if k == "probe":
+                    vm.advance(0.01)
+                return True
             if k == "adv":
                 vm.advance(op[1])
                 return True
@@ -761,7 +803,8 @@ def _run(case, tap, G, VMachine, MpfCrash):
                 ok = do_op(op)
                 obs["ops_applied" if ok else "ops_skipped"] += 1
                 if ok:
-                    shape.append({"start_game": "S", "add_player": "a", "drain": "d", "end_game": "E", "adv": "t"}.get(
+                    shape.append({"start_game": "S", "add_player": "a", "drain": "d", "end_game": "E", "adv": "t", "read": "r",
+                                  "probe": "r"}.get(
                         op[0]) or ("p" if op[1] in pv_table else "m" if op[1].startswith("x_m2_") else
                                    "h" if op[1] == "x_base_halt" else "e"))
                 after_op()
